@@ -38,6 +38,7 @@ def run(ctx):
     ctx.build("c05")
     states = trans = 0
     vectors = 0
+    quic_points = 0
     samples = []
 
     # ---- the reload machine: exhaustive
@@ -68,6 +69,12 @@ def run(ctx):
             raise ToolError("duplicate vectors in slice %s" % name)
         vectors += n
         samples += r["samples"][:2]
+        # the same table over real QUIC handshakes (per-host certificates, served leaf certificate compared): every point of
+        # the protocol slice that is a QUIC connection, a seeded sample of configurations of the host slices
+        import h3_jobs
+        if name in ("qprotos", "qhosts", "thosts"):
+            q = h3_jobs.h3_demux_job(ctx, name, s["out"], max_configs=0 if name == "qprotos" else (200 if ctx.thorough else 60))
+            quic_points += q["quic_points"]
         if ctx.thorough:
             os.remove(s["out"])
 
@@ -116,6 +123,7 @@ def run(ctx):
         "traces_validated_against_impl": vectors + accepted,
         "replayed_behaviours": vectors, "recorded_traces": accepted, "events_validated": events if accepted else 0,
         "tcp_accept_path_handshakes": tcp,
+        "quic_handshake_points": quic_points,
         "evaluations": ev, "distinct_nontrivial": nt,
         "rule": "every point TLC enumerates for Demux.tla (configuration x SNI x ALPN list; the answer SETS for the plain decision and for TCP are TLC's) is evaluated on the real TlsDemux::new/select; every configuration on TlsHostsSettings::validate; the TCP answers are compared on the real accept path (rustls ClientHello over loopback -> TlsListener::listen -> Core::on_new_tls_connection, configuration installed by reload_tls_hosts_settings; certificate shown and negotiated ALPN checked) for all points of the protocol slice (qprotos) and a seeded sample of the other slices. Non-trivial = any point other than 'SNI designates nothing -> refuse', distinct by (configuration, SNI, ALPN). Reload: threads select while a thread reloads valid/invalid/unloadable settings; the event trace (lock, swap, results under the read lock) is validated against Demux.tla by TLC.",
         "samples": samples + r["samples"][:1],
@@ -126,7 +134,7 @@ def run(ctx):
         "host names over labels {a,b,m}, at most 3 labels, at most two main hosts and one host per other class, one alternative SNI; ALPN lists of length <= 3 over {h3,h2,http/1.1,unknown,non-UTF-8}",
         "open corners are answer sets: an SNI that is an allowed_sni and <label>.<main>; an SNI that is a host name and another entry's allowed_sni; h3 best on TCP with a usable lower protocol (refuse or fall back); QUIC with an SNI designating nothing (refuse or first main host)",
         "allowed_sni is honoured on main hosts only (as documented in the settings)",
-        "the plain decision (tr = quic) is compared on TlsDemux::select; the QUIC data path itself (quic_multiplexer) is not driven",
+        "the plain decision (tr = quic) is compared on TlsDemux::select for every point; the points that are QUIC connections (HTTP/3 enabled, h3 offered, ALPN lists of at most 2 tokens) are also replayed over real QUIC handshakes against Core::listen (c05q: served leaf certificate, channel by a probe request, credentials label from the forwarder call) - all of the protocol slice, a seeded sample of configurations of the host slices",
         "a selection observed under the read lock is attributed to the version installed by the last ReloadSwap event; both are emitted while the respective lock is held",
         "trusted: TLC, the TOML rendering of configurations in the harness, the doors verif::demux, rustls as the test client",
     ])
